@@ -32,11 +32,12 @@ def run(replay=None):
     for k in range(40 if quick else 800):
         p = meshgen.closed_solid(rng, f"w{k}")
         p.qs = []
-        for alg in range(3):
+        for alg in (0, 0, 1, 2):
             for _ in range(1 if quick else 2):
                 workers = rng.choice([1, 2, 4, 8, 16])
                 mf = rng.choice([0.3, 0.22, 0.4, 0.18] if alg == 0 else [0.45, 0.35, 0.6])
-                vol = 1 if rng.random() < 0.4 else 0
+                # the volume tree only accelerates dual contouring; resolutions: same as the mesh, x2, x4
+                vol = rng.choice([0, 1, 2, 3, 1, 2]) if alg == 0 else rng.choice([0, 0, 2])
                 p.qs.append((alg, workers, mf, vol, p.ncmd + 1))
                 p.emit(f"mesh {p.root} {alg} {workers} {f2h(mf)} {box} {f2h(1e-8)} {rng.randrange(1 << 30)} {vol}")
         progs.append(p)
@@ -60,7 +61,7 @@ def run(replay=None):
             f = dict(x.split("=", 1) for x in out[0].split(" info=")[0].split()[1:])
             name = ["dc", "simplex", "hybrid"][alg]
             stats["renders"] += 1
-            stats["with_vol_tree"] += vol
+            stats["with_vol_tree"] += 1 if vol else 0
             stats["winding_points"] += int(f["wind_pts"])
             stats["vertices"] += int(f["verts"])
             ratio = float(f["maxfield"])
@@ -68,6 +69,10 @@ def run(replay=None):
             if int(f["wind_bad"]):
                 ck.violation(f"winding:{name}" + (":vol" if vol else ""),
                              "the mesh does not separate inside from outside like the expression (winding number) at a point far from the surface",
+                             {"program": p.text(), "command": p.lines[cmd - 1], "detail": out[0]})
+            if int(f["unbalanced"]):
+                ck.violation(f"hole:{name}" + (":vol" if vol else ""),
+                             "the mesh has unpaired edges (a hole): it cannot separate inside from outside",
                              {"program": p.text(), "command": p.lines[cmd - 1], "detail": out[0]})
             if int(f["outside"]):
                 ck.violation(f"outside:{name}", "a mesh vertex lies outside the render region",
